@@ -223,6 +223,11 @@ def _check(ctx: Ctx, only=None) -> None:
                 continue
             pair = src(t.value.value)
             nzz = Normaliser()
+            # temporaries defined in the same block before the guard / the store are substituted (`length = end - onset; if length > m`)
+            lp_ = next((a for a in ancestors(w.node) if isinstance(a, ast.For)), None)
+            if lp_ is not None:
+                nzz.run_block([s_ for s_ in ast.walk(lp_) if isinstance(s_, ast.Assign) and len(s_.targets) == 1 and isinstance(s_.targets[0], ast.Name)
+                               and s_.lineno < w.node.lineno and not isinstance(s_.value, (ast.Call, ast.Subscript))])
             new_end = nzz.norm(w.node.value) if isinstance(w.node, ast.Assign) else None
             start = Sym.atom(f"{pair}[0].time")
             ctx.check(new_end is not None and (new_end - start) == Sym.atom(red), "CUT", f"{q}: new end = onset + {red}", function=q,
